@@ -192,6 +192,46 @@ def value_of(e, env):
         if isinstance(v, (bool, int, float)):
             return float(v)
         return _RAISES
+    # arithmetic on representatives (constant folding): + - * / // % **, int / float / abs / len / math.floor / ceil / log10
+    if isinstance(e, ast.BinOp) and isinstance(e.op, (ast.LShift, ast.RShift, ast.BitAnd, ast.BitOr, ast.BitXor)):
+        l, r = value_of(e.left, env), value_of(e.right, env)
+        if isinstance(l, int) and isinstance(r, int) and not isinstance(l, bool) and not isinstance(r, bool) and (not isinstance(e.op, ast.LShift) or 0 <= r <= 4096):
+            import operator as _op
+
+            return {ast.LShift: _op.lshift, ast.RShift: _op.rshift, ast.BitAnd: _op.and_, ast.BitOr: _op.or_, ast.BitXor: _op.xor}[type(e.op)](l, r) if r >= 0 or not isinstance(e.op, (ast.LShift, ast.RShift)) else _NOVAL
+        return _NOVAL
+    if isinstance(e, ast.Call) and not e.keywords and len(e.args) == 1 and isinstance(e.func, ast.Name) and e.func.id == "str" and "str" not in env:
+        v = value_of(e.args[0], env)
+        return str(v) if isinstance(v, (int, str)) and not isinstance(v, bool) else _NOVAL
+    if isinstance(e, ast.BinOp) and isinstance(e.op, (ast.Add, ast.Sub, ast.Mult, ast.Div, ast.FloorDiv, ast.Mod, ast.Pow)):
+        l, r = value_of(e.left, env), value_of(e.right, env)
+        num = lambda v: isinstance(v, (int, float)) and not isinstance(v, bool)
+        if num(l) and num(r):
+            import operator as _op
+
+            fn = {ast.Add: _op.add, ast.Sub: _op.sub, ast.Mult: _op.mul, ast.Div: _op.truediv, ast.FloorDiv: _op.floordiv, ast.Mod: _op.mod, ast.Pow: _op.pow}[type(e.op)]
+            try:
+                if isinstance(e.op, ast.Pow) and (abs(r) > 64 or abs(l) > 10 ** 6):
+                    return _NOVAL
+                return fn(l, r)
+            except (ZeroDivisionError, OverflowError, ValueError):
+                return _NOVAL
+        return _NOVAL
+    if isinstance(e, ast.Call) and not e.keywords and len(e.args) == 1 and ast.unparse(e.func) in ("int", "abs", "len", "math.floor", "math.ceil", "math.log10") and ast.unparse(e.func).split(".")[0] not in env:
+        v = value_of(e.args[0], env)
+        fn = ast.unparse(e.func)
+        try:
+            if fn == "len" and isinstance(v, (list, dict, str)):
+                return len(v)
+            if isinstance(v, (int, float)) and not isinstance(v, bool):
+                import math as _m
+
+                return {"int": int, "abs": abs, "math.floor": _m.floor, "math.ceil": _m.ceil, "math.log10": _m.log10}[fn](v) if fn != "len" else _NOVAL
+        except (ValueError, OverflowError):
+            return _NOVAL
+        if fn == "int" and v is not _NOVAL and not isinstance(v, (int, float)):
+            return _RAISES
+        return _NOVAL
     if isinstance(e, ast.Call) and isinstance(e.func, ast.Name) and HOOK.get("value") is not None and e.func.id not in env:
         return HOOK["value"](e, env)
     if isinstance(e, ast.Dict) and all(k is not None for k in e.keys):
